@@ -57,6 +57,14 @@ func (r *recorder) inv(op, d string, k int) int {
 	return id
 }
 
+// mark records a point passed by a goroutine of the real code (no call id)
+func (r *recorder) mark(kind, d string) {
+	e := ev{Seq: seq.Add(1), Ev: kind, D: d}
+	r.mu.Lock()
+	r.evs = append(r.evs, e)
+	r.mu.Unlock()
+}
+
 func (r *recorder) ret(id int, op, d string, k int, res string, val int, err error) {
 	e := ev{Ev: "ret", ID: id, Op: op, D: d, K: k, Res: res, Val: val}
 	if err != nil {
@@ -87,7 +95,7 @@ func classify(err error) string {
 	return "err"
 }
 
-const sdl = "type T {\n name: String\n c: Int @crdt(type: pncounter)\n v: Int\n}"
+const sdl = "type T {\n name: String\n c: Int @crdt(type: pncounter)\n v: Int\n}\ntype R {\n name: String\n v: Int\n}"
 
 func main() {
 	out := flag.String("out", "", "history ndjson")
@@ -106,10 +114,25 @@ func main() {
 	must(err)
 	_, err = b.DB.AddSchema(ctx, sdl)
 	must(err)
-	colID := cols[0].CollectionID
+	colID := ""
+	for _, c := range cols {
+		if c.Name == "T" {
+			colID = c.CollectionID
+		}
+	}
 	docs := map[string]string{}
-	for _, d := range []string{"d1", "d2"} {
-		for _, n := range []*cluster.Node{a, b} {
+	// sources of the merge burst: each holds its own branch of d3
+	const burstN = 6
+	var srcs []*cluster.Node
+	for i := 0; i < burstN; i++ {
+		sn, err := cluster.NewNode(ctx, fmt.Sprintf("S%d", i), cluster.Options{})
+		must(err)
+		_, err = sn.DB.AddSchema(ctx, sdl)
+		must(err)
+		srcs = append(srcs, sn)
+	}
+	for _, d := range []string{"d1", "d2", "d3"} {
+		for _, n := range append([]*cluster.Node{a, b}, srcs...) {
 			data, err := n.Exec(ctx, fmt.Sprintf(`mutation { create_T(input: {name: %q, c: 0}) { _docID } }`, d))
 			must(err)
 			docs[d] = cluster.Rows(data, "create_T")[0]["_docID"].(string)
@@ -118,18 +141,43 @@ func main() {
 	rec := &recorder{}
 	// merge completions / failures of node A
 	mergeDone := make(chan string, 1024)
+	burstDone := make(chan string, 1024)
 	sub, err := a.DB.Events().Subscribe(event.MergeCompleteName)
 	must(err)
 	go func() {
 		for m := range sub.Message() {
 			if mc, ok := m.Data.(event.MergeComplete); ok {
-				mergeDone <- "ok:" + mc.Merge.Cid.String()
+				if mc.Merge.DocID == docs["d3"] {
+					burstDone <- "ok:" + mc.Merge.Cid.String()
+				} else {
+					mergeDone <- "ok:" + mc.Merge.Cid.String()
+				}
 			}
 		}
 	}()
+	nameOf := func(docID string) string {
+		for n, id := range docs {
+			if id == docID {
+				return n
+			}
+		}
+		return docID
+	}
 	db.VerifGate = func(point string, d *db.DB, key string) {
-		if point == "merge.failed" && d == a.DB {
-			mergeDone <- "failed:" + key
+		if d != a.DB {
+			return
+		}
+		switch point {
+		case "merge.begin":
+			rec.mark("mb", nameOf(key))
+		case "merge.end":
+			rec.mark("me", nameOf(key))
+		case "merge.failed":
+			if nameOf(key) == "d3" {
+				burstDone <- "failed"
+			} else {
+				mergeDone <- "failed:" + key
+			}
 		}
 	}
 	var wg sync.WaitGroup
@@ -246,7 +294,114 @@ func main() {
 			}
 		}
 	}
-	// a concurrent transaction shared by two goroutines
+	// a burst of incoming merges for one document nobody writes locally: independent branches, published at once.
+	// The merge queue serialises them, so none can conflict with another: all complete, each adds its increment once.
+	burst := func() {
+		defer wg.Done()
+		type bm struct {
+			id int
+			c  string
+			k  int
+		}
+		var ms []bm
+		var evs []event.Merge
+		for i, sn := range srcs {
+			k := i + 1
+			if _, err := sn.Exec(ctx, fmt.Sprintf(`mutation { update_T(docID: %q, input: {c: %d}) { _docID } }`, docs["d3"], k)); err != nil {
+				must(err)
+			}
+			hd, err := sn.Exec(ctx, fmt.Sprintf(`query { latestCommits(docID: %q) { cid } }`, docs["d3"]))
+			must(err)
+			c, _ := cid.Decode(cluster.Rows(hd, "latestCommits")[0]["cid"].(string))
+			_, err = cluster.CopyClosure(ctx, sn, a, c)
+			must(err)
+			ms = append(ms, bm{c: c.String(), k: k})
+			evs = append(evs, event.Merge{DocID: docs["d3"], Cid: c, CollectionID: colID})
+		}
+		time.Sleep(time.Duration(5+*seed%20) * time.Millisecond) // land in the middle of the other goroutines' work
+		for i := range ms {
+			ms[i].id = rec.inv("merge", "d3", ms[i].k)
+		}
+		for _, e := range evs {
+			a.DB.Events().Publish(event.NewMessage(event.MergeName, e))
+		}
+		okc := map[string]bool{}
+		got := 0
+		deadline := time.After(30 * time.Second)
+	wait:
+		for got < len(ms) {
+			select {
+			case m := <-burstDone:
+				got++
+				if strings.HasPrefix(m, "ok:") {
+					okc[m[3:]] = true
+				}
+			case <-deadline:
+				break wait
+			}
+		}
+		for _, m := range ms {
+			res := "err"
+			var err error
+			if okc[m.c] {
+				res = "ok"
+			} else if got < len(ms) {
+				res, err = "hang", fmt.Errorf("merge neither completed nor failed within 30s")
+			} else {
+				err = fmt.Errorf("incoming merge dropped after the retry budget although no local call writes this document")
+			}
+			rec.ret(m.id, "merge", "d3", m.k, res, 0, err)
+		}
+	}
+	// Race exercise, not part of the recorded history: many goroutines write a separate collection through one shared
+	// concurrent transaction. Judged by the race detector, by "no panic" and by a count after the commit.
+	heavyLost := ""
+	heavy := func() {
+		defer wg.Done()
+		const workers, per = 8, 20
+		txn, err := a.DB.NewConcurrentTxn(ctx, false)
+		must(err)
+		tctx := db.InitContext(ctx, txn)
+		col, err := a.DB.GetCollectionByName(tctx, "R")
+		must(err)
+		var inner sync.WaitGroup
+		var failed atomic.Int64
+		for w := 0; w < workers; w++ {
+			inner.Add(1)
+			go func(w int) {
+				defer inner.Done()
+				defer func() {
+					if r := recover(); r != nil {
+						panics.Add(1)
+						fmt.Fprintln(os.Stderr, "PANIC in worker:", r)
+					}
+				}()
+				for j := 0; j < per; j++ {
+					doc, err := client.NewDocFromMap(map[string]any{"name": fmt.Sprintf("r-%d-%d", w, j), "v": int64(j)}, col.Definition())
+					if err == nil {
+						err = col.Create(tctx, doc)
+					}
+					if err != nil {
+						failed.Add(1)
+					}
+				}
+			}(w)
+		}
+		inner.Wait()
+		cerr := txn.Commit(ctx)
+		data, err := a.Exec(ctx, `query { _count(R: {}) }`)
+		must(err)
+		n, _ := data["_count"].(json.Number)
+		got, _ := n.Int64()
+		want := int64(workers*per) - failed.Load()
+		if cerr != nil {
+			want = 0
+		}
+		if got != want {
+			heavyLost = fmt.Sprintf("%d documents were created without error through a shared concurrent transaction (commit: %v) but %d exist", want, cerr, got)
+		}
+	}
+	// a concurrent transaction shared by several goroutines
 	shared := func() {
 		defer wg.Done()
 		txn, err := a.DB.NewConcurrentTxn(ctx, false)
@@ -258,12 +413,12 @@ func main() {
 			key string
 			err error
 		}
-		results := make(chan pend, 8)
-		for s := 0; s < 2; s++ {
+		results := make(chan pend, 64)
+		for s := 0; s < 6; s++ {
 			inner.Add(1)
 			go func(s int) {
 				defer inner.Done()
-				for j := 0; j < 2; j++ {
+				for j := 0; j < 3; j++ {
 					key := fmt.Sprintf("shared-%d-%d", s, j)
 					id := rec.inv("create", key, 0)
 					col, err := a.DB.GetCollectionByName(tctx, "T")
@@ -294,12 +449,14 @@ func main() {
 		wg.Add(1)
 		go worker(g)
 	}
-	wg.Add(2)
+	wg.Add(4)
 	go merger()
 	go shared()
+	go burst()
+	go heavy()
 	wg.Wait()
 	// final reads: everything has returned, so these are ordered after every call
-	for _, d := range []string{"d1", "d2"} {
+	for _, d := range []string{"d1", "d2", "d3"} {
 		id := rec.inv("read", d, 0)
 		data, err := a.Exec(ctx, fmt.Sprintf(`query { T(docID: %q) { c } }`, docs[d]))
 		val := 0
@@ -334,13 +491,16 @@ func main() {
 		}
 	}
 	f.Close()
-	js, _ := json.Marshal(map[string]any{"events": len(rec.evs), "calls": len(rec.evs) / 2, "by_result": byRes, "panics": panics.Load(), "wall_s": time.Since(start).Seconds()})
+	js, _ := json.Marshal(map[string]any{"events": len(rec.evs), "calls": len(rec.evs) / 2, "by_result": byRes, "panics": panics.Load(), "shared_txn_lost": heavyLost, "wall_s": time.Since(start).Seconds()})
 	if *stats != "" {
 		os.WriteFile(*stats, js, 0o644)
 	}
 	fmt.Println(string(js))
 	a.Close()
 	b.Close()
+	for _, sn := range srcs {
+		sn.Close()
+	}
 }
 
 func must(err error) {
